@@ -10,6 +10,7 @@ import PlatypusModel.Model.Crowding
 import PlatypusModel.Model.Grid
 import PlatypusModel.Model.Run
 import PlatypusModel.Model.GenStep
+import PlatypusModel.Model.HVFit
 import PlatypusModel.Model.Survival
 import PlatypusModel.Model.SPEA2
 import PlatypusModel.Model.NSGA3
@@ -188,6 +189,12 @@ def opsSorting (op : String) : Option (P String) :=
   | "crowdF" => some do
       let nobjs ← nat; let front ← list (list flt)
       pure (" ".intercalate ("c" :: (crowdingF nobjs front).map showFlt))
+  | "hvfit" => some do
+      -- HypervolumeFitnessEvaluator.hypervolume(solution1, solution2 | None, d) at Float
+      let rho ← flt; let maxs ← list bool; let n1 ← list flt; let has2 ← nat; let n2 ← list flt; let d ← nat
+      let f1 : Nat → Float := fun i => n1.getD i 0.0
+      let f2 : Option (Nat → Float) := if has2 = 0 then none else some fun i => n2.getD i 0.0
+      pure (showFlt (hvFit rho (fun i => maxs.getD i false) f1 f2 d))
   | "crowdG" => some do
       -- the generic crowding model at Float (`none` shown as +inf)
       let nobjs ← nat; let front ← list (list flt)
